@@ -297,7 +297,9 @@ package history
 //@   ensures [match-is-entry] result2 && len(entries(hcur(h))) == 0 ==> len(result0) == 0
 //@   ensures [no-match] !result2 ==> len(result0) == 0 && result1 == 0
 //@   ensures [prefix-match] result2 && !regex && cur == nil ==> len(str(*match)) <= len(result0) && (len(str(*match)) > 0 ==> result0[:len(str(*match))] == str(*match))
+//@   ensures [prefix-match-to-point] result2 && !regex && cur != nil && cur.line == match && old(core.cok(cur)) && old(cur.pos) < len(*match) ==> len(str((*match)[:old(cur.pos)])) <= len(result0) && result0[:len(str((*match)[:old(cur.pos)]))] == str((*match)[:old(cur.pos)])
 //@   loop 1 invariant hcur(h) != nil && history == hcur(h) && (fwd ==> -1 <= histPos) && (!fwd ==> histPos <= len(entries(history))) && (cur != nil ==> core.cvalid(cur)) && *match == old(*match)
+//@   loop 1 invariant cur != nil && old(core.cok(cur)) ==> core.cok(cur) && cur.pos == old(cur.pos)
 //@   loop 1 decreases ite(fwd, len(entries(history)) - histPos, histPos)
 
 //@ func (*Sources).getLine
